@@ -14,13 +14,15 @@ PROPS["C19"] = dict(
           "PrintCtx and to a bytes.Buffer in lock-step. Non-trivial: the sequence has a read-type operation after a "
           "write-type one and more than 64 bytes were written (so growth/slide code ran); distinct = distinct (start kind, "
           "operation-kind sequence)."
-          " Every slice returned by ReadBytes is retained and re-compared after each later step (it must be a copy)."),
+          " Every slice returned by ReadBytes is retained and re-compared after each later step (it must be a copy)."
+          " Second stage: the encoder as it is handed to user marshallers inside real records (1-3 records in a row on pooled contexts, 1-3 marshaller attributes each, 3 formats): at every marshaller entry the reference is a fresh bytes.Buffer with the encoder's contents, length, capacity and read offset (whatever the library wrote since the last call counts as a Write), then 0-8 operations in lock-step; non-trivial: a marshaller starts with Unread* after the previous one ended with a read."),
     assumptions=["bytes.Buffer of the toolchain that builds the harness is the reference",
                  "panic values are compared by class (too-large / error / other), not by wording",
                  "Cap/Available/AvailableBuffer are not part of the listed interface and are not compared"],
     stages=[
         dict(name="differential", run="^TestBufferDifferential$", quick=60000, thorough=4000000, shards=16,
              timeout_quick=600, timeout_thorough=3000),
+        dict(name="inside-marshallers", run="^TestInsideMarshallers$", quick=30000, thorough=2000000, shards=16, timeout_thorough=3000),
         dict(name="fuzz", fuzz="FuzzBufferDifferential", fuzztime=120),
     ],
 )
@@ -36,12 +38,14 @@ PROPS["C20"] = dict(
           "MinInt64/MaxInt64) and a style; non-trivial: |d| >= 24h or a sub-second part next to whole seconds; distinct = (style, value). "
           "(b) rapid draws strings: grammar of 1..5 number+unit terms (numbers incl. 17-25 digit overflow cases, units incl. d and junk), "
           "1-2 byte edits of those, random strings over the duration alphabet, arbitrary strings, and formatter output; non-trivial: accepted "
-          "by at least one of the two parsers; distinct = the string."),
+          "by at least one of the two parsers; distinct = the string. "
+          "(c) 8 goroutines format and parse 8-48 generated values 40 times each at once; every result must equal the one computed alone."),
     assumptions=["time.ParseDuration (Go toolchain building the harness) is the reference parser",
                  "a day term equals 24 hours; fractional day terms may differ by 1ns from the hours form"],
     stages=[
         dict(name="format", run="^TestFormatRoundTrip$", quick=150000, thorough=8000000, shards=8, timeout_quick=600, timeout_thorough=3000),
         dict(name="parse", run="^TestParseAgainstStdlib$", quick=150000, thorough=8000000, shards=8, timeout_quick=600, timeout_thorough=3000),
+        dict(name="concurrent", run="^TestConcurrentRoundTrip$", quick=300, thorough=20000, shards=8, timeout_thorough=3000),
         dict(name="fuzzparse", fuzz="FuzzParseDuration", fuzztime=120),
         dict(name="fuzzformat", fuzz="FuzzFormat", fuzztime=60),
     ],
@@ -83,7 +87,7 @@ PROPS["C02"] = dict(
           "with nil elements, groups nested to depth 6, empty groups/keys, error values; Println with no or a non-string first argument). "
           "Non-trivial: the list has a malformed/structured element, >=34 args, a Println special form or a blank Print; distinct = "
           "(format, entry kind, shape set, println mode, admitted, number of selected writers)."
-          " Some configurations are built with AddWriter/AddErrorWriter only (both orders; the standard devices stay in the lists, pointed at /dev/null); the flags are set through SetFlags, Add/RemoveFlags, an open SaveFlagsAndMod scope or after its restore function. Messages and values of 64 KiB - 1 MiB are mixed in."),
+          " Some configurations are built with AddWriter/AddErrorWriter only (both orders; the standard devices stay in the lists, pointed at /dev/null); the flags are set through SetFlags, Add/RemoveFlags, an open SaveFlagsAndMod scope or after its restore function. Messages and values of 64 KiB - 1 MiB are mixed in (and 1 of 80 messages is 70-300 KB long). A further writer (4 kinds) may be added after the first one of a list and removed again before the call (it must receive nothing). The list the record is bound for may have been closed through GetWriter().Close() / GetWriterBy(l).Close() before the call (recorder-only lists): the call must return normally and nobody gets the record twice or in part; delivery itself is not asserted then."),
     assumptions=["the destination set is computed with the C03 routing model (per-level > error-class > normal)"],
     stages=[
         dict(name="delivery", run="^TestDelivery$", quick=30000, thorough=1200000, shards=16, timeout_thorough=3000),
@@ -103,7 +107,7 @@ PROPS["C03"] = dict(
     rule=("rapid draws 1-3 loggers (roots/children, optionally created with 1-4 writer options) and up to 30 steps of writer operations and "
           "probes, then probes every logger at Info, Error and a drawn severity. Non-trivial: the history contains a remove or reset that "
           "changed the model state, or a probe answered by per-level writers or at a custom level; distinct = (operation-name sequence, class set)."
-          " Six custom levels cover every combination of error device / treated-as / negative value / unregistered; in a fifth of the histories one pool writer fails on every Write (routing must be unaffected); the package default logger (and children of it, uniquely named per case) takes part in the histories."),
+          " Six custom levels cover every combination of error device / treated-as / negative value / unregistered; in a fifth of the histories one pool writer fails on every Write (routing must be unaffected); the package default logger (and children of it, uniquely named per case) takes part in the histories; one pool writer is handed over as the handle slog.NewLogWriter returns for it; children are also made through WithSkip / WithLevel / WithAttrs."),
     assumptions=["each record carries a unique probe token, counted in the captured streams",
                  "all loggers are at level Always so that every severity except Off is admitted (gating is C01)"],
     stages=[
@@ -125,7 +129,7 @@ PROPS["C13"] = dict(
     rule=("enumeration: bitmask over the global order of Write attempts; generation: rapid draws pool size 2-6, writer lists (with shared "
           "writers), per-level lists, logger level, format, 1-12 calls at any built-in severity, up to 40 fail bits with partial-count flags, "
           "an optional set of permanently failing writers, and 1-6 fault-free suffix calls. Non-trivial: a failure on a writer that is not the "
-          "last of its list, or a failing diagnostic, or a failure followed by checked recovery; distinct = the whole scenario."),
+          "last of its list, or a failing diagnostic, or a failure followed by checked recovery; distinct = the whole scenario. A failing Write returns one of seven error kinds (injected, wrapping os.ErrClosed, io.ErrClosedPipe, io.ErrShortWrite, EPIPE, io.EOF, deadline exceeded); the logger may be a child / grandchild of a root that has recording writers of its own and level Always (nothing may arrive there)."),
     assumptions=["destinations are computed with the C03 routing model, admission of the diagnostic with the C01 rule"],
     stages=[
         dict(name="exhaustive", run="^TestExhaustiveSchedules$", quick=1, thorough=1, timeout_thorough=3000),
@@ -145,7 +149,7 @@ PROPS["C12"] = dict(
     rule=("quick: rapid draws cells (3/4 of them with severity Panic or Fatal) for child processes and in-process scenarios with messages of any "
           "byte class. Non-trivial: the cell terminates, or exactly one conjunct of the termination condition is false; distinct = (entry point, "
           "severity, logger level, both flags, format, process mode)."
-          " The termination flags are set through SetFlags, Add/RemoveFlags, an open SaveFlagsAndMod scope or after its restore function; child scenarios include unregistered negative and huge severities."),
+          " The termination flags are set through SetFlags, Add/RemoveFlags, an open SaveFlagsAndMod scope or after its restore function; child scenarios include unregistered negative and huge severities; a third of the child processes log to slog.NewFileWriter(path) instead of the harness's own unbuffered file writer (half of the matrix cells); the flags may also be set by a closed SaveFlagsAndMod scope that added flags which were set already."),
     assumptions=["the child observes the record through an unbuffered os.File write before the process ends"],
     stages=[
         dict(name="child", run="^TestChildSampled$", quick=700, thorough=32000, shards=16, timeout_thorough=3000),
@@ -167,7 +171,7 @@ PROPS["C04"] = dict(
           "tree (keys: identifiers, arbitrary bytes, hostile constants; values: 22 scalar kinds, 17 typed slice kinds, 7 fallback kinds; groups at "
           "any position, possibly empty). Non-trivial: a hostile byte class in message/key/value (quote, backslash, CR/LF, control, ESC, invalid "
           "UTF-8, U+2028), or a group, or a non-string kind; distinct = the set of classes and kinds present."
-          " The logger is put into its format in four ways (Set...Mode, option of New, option of New on a child of a parent in another format, With...Mode method); flags are set through all public ways."),
+          " The logger is put into its format in four ways (Set...Mode, option of New, option of New on a child of a parent in another format, With...Mode method); flags are set through all public ways. A scratch record of a fixed menu (other format, multi-line, groups, nil last, background colour, own layout, child with context keys) may be printed right before the record (pooled printing contexts). Fallback kinds include []error, pointer to struct, map[string]any. The logger may have a (year-less, lossy) time layout of its own, which must govern the time field only; 1 of 80 messages is 70-300 KB long."),
     assumptions=["encoding/json (with UseNumber, plus a UTF-8 validity check and a duplicate-name check) is the JSON judge"],
     stages=[
         dict(name="records", run="^TestJSONRecords$", quick=40000, thorough=1600000, shards=16, timeout_thorough=3000),
@@ -186,7 +190,7 @@ PROPS["C05"] = dict(
     note="Keys: non-empty, valid UTF-8, no space/'='/quote/control/'.'; reserved names excluded at every level; runs of blanks between pairs are accepted (statement: space-separated); nil may be printed as the bare placeholder <nil>.",
     rule=("as C04 with keys from the legal-logfmt class. Non-trivial: a group followed by at least one sibling in key order, or a hostile byte class "
           "in message/value, or a non-string kind, or a group; distinct = the set of classes and kinds present."
-          " The logger is put into its format in four ways (Set...Mode, option of New, option of New on a child of a parent in another format, With...Mode method); flags are set through all public ways."),
+          " The logger is put into its format in four ways (Set...Mode, option of New, option of New on a child of a parent in another format, With...Mode method); flags are set through all public ways. Scratch record, own time layout and huge messages as C04."),
     assumptions=["strconv.Unquote is the inverse of the quoting the statement asks for", "production mode = harness binary run under a name not ending in .test"],
     stages=[
         dict(name="production", run="^TestLogfmtRecords$", mode="prod", quick=30000, thorough=800000, shards=16, timeout_thorough=3000),
@@ -206,7 +210,7 @@ PROPS["C07"] = dict(
     rule=("rapid draws the scenario; about half of the call lists have >= 13 entries (stability threshold of the sort). Non-trivial: at least two "
           "sources contribute the same key, or >= 13 attributes with a duplicate, or a parent contributes while the logging logger has no own "
           "attributes; distinct = (format, flag, context mode, class set, chain depth, number of source attributes)."
-          " A quarter of the scenarios give one shared Attrs value (spare capacity) to every logger through SetAttrs1; half emit a second record after attributes were added to a drawn logger of the chain, with another call list."),
+          " A quarter of the scenarios give one shared Attrs value (spare capacity) to every logger through SetAttrs1; half emit a second record after attributes were added to a drawn logger of the chain, with another call list. Own attributes may also be set with SetAttrs1(slog.NewAttrs(args...)); a scratch record may be printed right before the record (as C04)."),
     assumptions=["merge order stated in the property: context < ancestors (outermost first) < own < call"],
     stages=[dict(name="assembly", run="^TestAssembly$", quick=25000, thorough=4000000, shards=16, timeout_thorough=3000)],
 )
@@ -225,7 +229,7 @@ PROPS["C06"] = dict(
           "multi-line message, or a level without colour entry, or a value with control bytes, or widths different from the defaults; distinct = "
           "(class set, severity, tag width, minimal width bucket, number of rest lines)."
           " The logger is put into its format in four ways (Set...Mode, option of New, option of New on a child of a parent in another format, With...Mode method); flags are set through all public ways."
-          " Level colours may be changed with SetLevelColors; a record at the level value may be emitted before the custom levels are registered."),
+          " Level colours may be changed with SetLevelColors; a record at the level value may be emitted before the custom levels are registered; a scratch record may be printed right before the record (as C04); 1 of 80 messages is 70-300 KB long."),
     assumptions=["ESC[0m / ESC[m reset the terminal state, every other ESC[...m sequence switches something on",
                  "built-in level tags are the table documented in slog/level.go (copied into the harness)"],
     stages=[
@@ -248,7 +252,7 @@ PROPS["C09"] = dict(
     note="sync.Pool reuse cannot be forced or observed from outside; the last history call runs on the probe's goroutine so that the probe normally picks up the context that call returned to the pool. GC may drop pooled objects (covered statistically).",
     rule=("rapid draws the probe and two histories. Non-trivial: a history contains a record longer than the probe, or of another format, or a "
           "colored record of another severity; distinct = (format, severity, named, caller, class set, lengths of both histories)."
-          " Attribute keys include the reserved field names (time often holding a time.Time); the caller file may lie under two path mappings; the probe destination may be re-entrant (logs through another logger inside Write, for emissions 2 and 4). Second test: two levels registered identically must print identically whether or not one was logged while unregistered."),
+          " Attribute keys include the reserved field names (time often holding a time.Time); the caller file may lie under two path mappings; the probe destination may be re-entrant (logs through another logger inside Write, for emissions 2 and 4). Second test: two levels registered identically must print identically whether or not one was logged while unregistered. A custom level with a foreground colour only is among the severities; histories contain calls with a value whose String method panics (recovered by the caller) and calls with a marshaller that consumes bytes of the encoder it is handed."),
     assumptions=["attributes are rebuilt from the same description for every emission (the encoder sorts argument slices in place)"],
     stages=[dict(name="history", run="^TestHistoryIndependence$", quick=8000, thorough=1200000, shards=16, timeout_thorough=3000),
             dict(name="registration", run="^TestRegistrationHistory$", quick=2000, thorough=400000, shards=8, timeout_thorough=3000),
@@ -266,7 +270,7 @@ PROPS["C11"] = dict(
     note="The shape classification is: starts with '{' and decodes as one JSON object = JSON; contains an SGR sequence = colored; otherwise must tokenise as logfmt starting with time=.",
     rule=("generated: 1-30 steps (set 50%, with/new 20%, probe 30%), boolean lists of length 0-3, then a probe of every logger. Non-trivial: some "
           "logger visited >= 2 states and >= 2 loggers exist; distinct = the history text. Enumerated: all index vectors; non-trivial: >= 2 states visited."
-          " Probes rotate over seven severities incl. a level registered without colours and unregistered ones."),
+          " Probes rotate over seven severities incl. a level registered without colours and unregistered ones, and over eight attribute lists (error, []error, group, time/duration, nil/[]byte/[]string, struct/map/float/complex, none)."),
     assumptions=[],
     stages=[
         dict(name="enumerated", run="^TestEnumeratedHistories$", quick=1, thorough=1, timeout_thorough=3000),
@@ -324,7 +328,7 @@ PROPS["C18"] = dict(
     note="Not asserted (labelled only): textual look-alike prefixes (/rootkit vs /root) and paths in which a prefix re-occurs inside; when a regexp mapping or the /Volumes rule can interfere only the prefix rule and no-panic are asserted; removal of the home/cwd mapping is only exercised in the caller-field test (cwd). Mappings onto their own prefix and cyclic mapping chains are not generated; when a registered replacement itself lies under a protected prefix, that prefix may show (the user asked for it).",
     rule=("rapid draws 0-6 table operations, the two flags and 1-4 paths. Non-trivial: >= 2 applicable mappings, or an absolute replacement, or a "
           "remove before the query; distinct = (table history, flags, paths)."
-          " A quarter of the mappings are registered with a trailing separator; flags are set through all public ways. The caller-field test emits one or two records from the same call statement, the privacy flag drawn anew for each."),
+          " A quarter of the mappings are registered with a trailing separator; flags are set through all public ways. The caller-field test emits one or two records from the same call statement, the privacy flag drawn anew for each; table histories contain the general reset functions (Reset, ResetFlags, ResetLevel), which must leave the path tables alone."),
     assumptions=["HOME and the working directory of the harness process are the home/cwd the package captured at init"],
     stages=[
         dict(name="safety", run="^TestSafety$", quick=15000, thorough=600000, shards=16, timeout_thorough=3000),
@@ -336,7 +340,7 @@ PROPS["C18"] = dict(
 PROPS["C14"] = dict(
     pkg="c14", level="exploration",
     technique="enumeration of a generated call-site table (one function per public entry point) x formats x logger kinds x skip counts x wrapper chains, compared with runtime.Callers at the issuing statement; rapid sampling of the same space; two builds (default and -gcflags=all=-l)",
-    claim=("For each of 64 entry points (11 verbs, their Context variants, Println/PrintlnContext, LogAttrs/Logit/Log, Infof/Warnf/Errorf, the "
+    claim=("For each of 66 entry points (11 verbs, their Context variants, Println/PrintlnContext, LogAttrs/Logit/Log, Infof/Warnf/Errorf, the "
            "package-level functions and Context functions on the default logger, log/slog Logger.Info/Warn/InfoContext/Log/LogAttrs and package-level "
            "log/slog functions on the adapter, log.Logger.Print/Printf/Println on the bridge), in three formats, on root/child/default loggers, "
            "with skip 0..4 set by WithSkip or SetSkip and wrapper chains of depth skip or 4 (//go:noinline recursion, or small inlinable "
@@ -346,7 +350,7 @@ PROPS["C14"] = dict(
     note="Expected file is slog.Safety(file) (C18 owns the path policy); colored mode prints the function without its package path. log.Logger.Output called directly, goroutine entry points, deferred calls and cgo callers are not built.",
     rule=("matrix enumeration plus rapid sampling (privacy flags toggled). Non-trivial: skip >= 1, or an entry point that is not a method of the "
           "logger (package-level, adapter, bridge); distinct = the cell."
-          " Also: log/slog Loggers derived with With/WithGroup, an earlier SetSkip before the final one, a sibling WithSkip child created afterwards, a SetSkip issued after an adapter/bridge was built on the logger, flags set through all public ways."),
+          " Also: log/slog Loggers derived with With/WithGroup, an earlier SetSkip before the final one, a sibling WithSkip child created afterwards, a SetSkip issued after an adapter/bridge was built on the logger, flags set through all public ways. 21 of the 87 call sites are further argument shapes of the same entry points (plain operands, dangling key, non-string first argument, no arguments, Attr/Group arguments, multi-line message) or carry an error value with a stack trace of its own; sampled cases run the issuing statement 1-3 times in a row, every record checked."),
     assumptions=["runtime.Callers / CallersFrames give the true logical frames (also for inlined functions)"],
     stages=[
         dict(name="matrix", run="^TestMatrix$", quick=1, thorough=1),
@@ -372,7 +376,7 @@ PROPS["C15"] = dict(
     rule=("rapid draws the scenario. Non-trivial (handler): a derivation chain of length >= 1, a group / LogValuer / Any attribute, or a "
           "non-standard level; distinct = (format, logger level, slog level, chain length, class set, path, emitted). Bridge: every case is "
           "keyed by (level, severity, admitted, call, newline count)."
-          " Every intermediate handler also gets decoy siblings derived after the real one; 1-3 records go through the same handler; the logger's level may change after the bridge was built; up to 7 WithAttrs steps; record attributes may collide with handler attribute keys (last wins; effectively empty groups under a handler key are not generated); JSON records may carry one attribute with an empty key and a non-zero value."),
+          " Every intermediate handler also gets decoy siblings derived after the real one; 1-3 records go through the same handler; the logger's level may change after the bridge was built; up to 7 WithAttrs steps; record attributes may collide with handler attribute keys (last wins; effectively empty groups under a handler key are not generated); JSON records may carry one attribute with an empty key and a non-zero value; the underlying logger may have attributes of its own under keys the record carries (the record's values must be printed)."),
     assumptions=["log/slog of the building toolchain constructs the records"],
     stages=[
         dict(name="levels", run="^TestLogLevelMapping$", quick=1, thorough=1),
@@ -396,7 +400,7 @@ PROPS["C10"] = dict(
     note="Each case installs a fresh default logger (the process-wide one keeps children of earlier cases and has no public reset). Every logger gets private recording writers right after creation (child loggers do not inherit writers). The wall clock seeding the anonymous names cannot be owned by the harness: covered by the stress test. The production-binary stage checks the Warn default level.",
     rule=("rapid draws the history. Non-trivial: >= 3 loggers and (a With* and a Set* occurred, or New was called with the name of an existing "
           "child); distinct = the history text."
-          " Child names may repeat names used elsewhere in the forest; the package default level is modelled (changed by the package-level SetLevel only, compared with GetLevel after every step); attrs1 settings may hand the same Attrs value (drawn from a pool with spare capacity) to several loggers; writers are installed with Set* or with Add* on top of the inherited defaults."),
+          " Child names may repeat names used elsewhere in the forest; the package default level is modelled (changed by the package-level SetLevel only, compared with GetLevel after every step); attrs1 settings may hand the same Attrs value (drawn from a pool with spare capacity) to several loggers, also as ONE argument of Set / With; writers are installed with Set* or with Add* on top of the inherited defaults."),
     assumptions=["gating oracle = C01 rule incl. the debug-mode side effect of SetLevel(Debug)", "record decoding = C04/C05 decoders, merge = C07 reference"],
     stages=[
         dict(name="testing", run="^TestHierarchy$", quick=4000, thorough=800000, shards=16, timeout_thorough=3000),
